@@ -33,15 +33,17 @@ def gen_family(seed, fam):
     if r.random() < 0.5:
         pair = r.choice(corpus.FEEDER_PAIRS)
         chosen.extend(pair)
-    if r.random() < 0.15:
-        for n in r.choice(corpus.VARIANT_PAIRS):
+    variant_pair = None
+    if pair is None and r.random() < 0.15:
+        variant_pair = r.choice(corpus.VARIANT_PAIRS)
+        for n in variant_pair:
             if n not in chosen:
                 chosen.append(n)
     if r.random() < 0.08 and not big:
         # theme: a module that needs far more stack than the default limit gives (RecursionError on the pinned tree)
         chosen.append('api/a59_deep_chain.py')
     state_pair = None
-    if pair is None and r.random() < 0.08:
+    if pair is None and variant_pair is None and r.random() < 0.08:
         state_pair = r.choice(corpus.STATE_PAIRS)
         for n in state_pair:
             if n not in chosen:
@@ -146,10 +148,11 @@ def gen_family(seed, fam):
                 t['src'] = r.choice(themed)
                 t['ra'] = {'slot': 0}
     feeder = consumer = None
+    if state_pair is None and variant_pair is not None:
+        state_pair = variant_pair          # same treatment: first module, then its variant, same options
     if state_pair is not None:
         for k, srcname in ((0, state_pair[0]), (1, state_pair[1])):
-            templates[k] = {'api': 'minify', 'src': chosen.index(srcname), 'kw': dict(templates[k].get('kw', {})) if templates[k]['api'] == 'minify' else {},
-                            'ra': 'omit'}
+            templates[k] = {'api': 'minify', 'src': chosen.index(srcname), 'kw': {}, 'ra': 'omit'}     # default options on both
         feeder, consumer = 0, 1
     if pair is not None:
         # feeder and consumer both go through the shared list with rename_globals on
